@@ -267,7 +267,14 @@ def prop_c19point(cname, x, y, why):
     ln = (c["p"].bit_length() + 7) // 8
     if not (0 <= x < 256 ** ln and 0 <= y < 256 ** ln):
         return "ok n/a"
-    valid = refec.on_curve(c, (x, y))
+    # must be accepted: on the curve and in the subgroup of the generator; must be rejected: not on the curve.
+    # On a curve with a cofactor (SECP112r2: 4) a point of the curve outside that subgroup is decided by the library's
+    # `n * point == INFINITY`, which (infinity being encoded as y = 0) also lets the points of order 2n through: the
+    # property does not say which way those go, so either outcome is taken - but never another exception.
+    cof = int(curve.curve.cofactor())
+    on = refec.on_curve(c, (x, y))
+    valid = on and (cof == 1 or refec.in_subgroup(c, (x, y)))
+    free = on and not valid
     xs, ys = x.to_bytes(ln, "big"), y.to_bytes(ln, "big")
     for name, data in (("raw", xs + ys), ("uncompressed", b"\x04" + xs + ys), ("hybrid", bytes([6 + (y & 1)]) + xs + ys),
                        ("hybrid-wrong-parity", bytes([7 - (y & 1)]) + xs + ys), ("compressed", bytes([2 + (y & 1)]) + xs)):
@@ -285,12 +292,16 @@ def prop_c19point(cname, x, y, why):
         if name == "compressed":
             # a compressed string only carries x: accepted iff x is the abscissa of a point, then y has the coded parity
             has_x = (x < c["p"]) and _is_square(c, x)
-            if has_x != (got is not None):
+            cfree = False
+            if has_x and cof != 1:
+                yy = refec.sqrt_mod((x * x * x + c["a"] * x + c["b"]) % c["p"], c["p"])
+                cfree = not refec.in_subgroup(c, (x, yy))      # the same for both roots: n * (-P) = -(n * P)
+            if not cfree and has_x != (got is not None):
                 return f"FAIL compressed form of x {'rejected' if has_x else 'accepted'}"
             if got is not None and (got[0] != x or (got[1] & 1) != (y & 1) or not refec.on_curve(c, got)):
                 return "FAIL compressed form decodes to a wrong point"
             continue
-        if valid != (got is not None):
+        if not free and valid != (got is not None):
             return f"FAIL {name} form of a {why} point {'rejected' if valid else 'accepted'}"
         if got is not None and got != (x, y):
             return f"FAIL {name} form decodes to a different point"
